@@ -173,8 +173,19 @@ def check_step_type_api(res: Result, tree):
 def check(tier: str) -> Result:
     tree = get_tree()
     res = Result(explanation=EXPLANATION)
-    check_types_table(res, tree)
     check_step_type_api(res, tree)
+    try:
+        return _check_rest(tier, tree, res)
+    except AnalysisError:
+        # a definite violation of the step-type API (e.g. two step types sharing one code) makes the rest of the
+        # analysis meaningless; report that violation instead of failing closed
+        if any(o.ok is False for o in res.obligations):
+            return res
+        raise
+
+
+def _check_rest(tier: str, tree, res: Result) -> Result:
+    check_types_table(res, tree)
     n_leaves = 0
     for ea in analyses(tree):
         vfg = ea.vfg
